@@ -285,6 +285,7 @@ def classification(R, ctx):
                 "create -> open -> copy -> finish -> remove, each guarding the next (decided with R07.1's rows)",
                 "compression of a rotated file: " + next((p_[0] for k_, p_ in problems.items() if '|' not in k_ and k_ != 'KeepLogFiles' and p_), 'no compress-range rows') +
                 " - a kill (or failure) between the steps can lose the original without a complete .gz", where=b.loc())
+        gz_sink(R, ctx)
 
 
 def T_norm(s):
@@ -538,3 +539,36 @@ def shutdown_rules(R, ctx):
         raise CheckError(f"R07.6 cleanup thread: form not recognised (Act rows {n_act}, exit rows {n_exit})")
     R.check('R07.6', 'cleanup-thread-loop', not bad, f"every Act is followed by a cleanup run ({n_act} cases); Die / disconnect leave ({n_exit} cases)",
             f"cleanup thread: {bad}", where=f.bodies[entries[0]].loc())
+
+
+def gz_sink(R, ctx):
+    """`finish()` returning Ok must MEAN that the compressed bytes were handed to the file: the sink below the encoder is the File itself, or -
+    if it is a buffering wrapper - the wrapper is flushed (flush / into_inner) with its result guarding the removal of the original.  A
+    BufWriter that is merely dropped swallows the write error (ENOSPC ...) of its last block and the original is removed all the same."""
+    f = ctx.f
+    n = 0
+    for x in f.fn_bodies():
+        for bb, t in x.calls():
+            if not re.search(r'GzEncoder::<W>::new$', callee_name(t)):
+                continue
+            n += 1
+            w = (t['callee'].get('targs') or ['?'])[0]
+            key = f"{root_fn(x.path)}|gz-sink"
+            if re.fullmatch(r'std::fs::File|&(mut )?std::fs::File', w):
+                R.ok('R07.2', key, "the encoder writes straight into the File: finish() = Ok means every compressed byte was accepted by the file")
+                continue
+            scope = with_closures(f, f.bodies[root_fn(x.path)]) if root_fn(x.path) in f.bodies else [x]
+            flushed = False
+            for y in scope:
+                rem = [b_ for b_, t_ in y.calls() if callee_name(t_) == 'std::fs::remove_file']
+                for b_, t_ in y.calls():
+                    if re.search(r'BufWriter::<W>::into_inner$|Write>?::flush$|File::sync_(all|data)$', callee_name(t_)):
+                        oks = [e[0] for e in ok_block_of_call(y, b_)]
+                        if rem and oks and all(any(C.dominates(y, o, r_) for o in oks) for r_ in rem):
+                            flushed = True
+            R.check('R07.2', key, flushed, f"the encoder's sink {w} is flushed and the result guards the removal of the original",
+                    f"the gz encoder writes into {w}, which is neither the File itself nor flushed with its result examined before the original is removed: finish() returns Ok while "
+                    "compressed bytes are still buffered, the wrapper's drop swallows a failing write, and the uncompressed original - the only complete copy - is removed; nothing is "
+                    "reported on the error channel", where=x.loc(bb))
+    if not n:
+        raise CheckError("R07.2: no GzEncoder::new site found although the compress feature is enabled")
